@@ -44,7 +44,7 @@ func (c *vCert) VerifyPrivateKey(cert.Curve, []byte) error { return nil }
 func (c *vCert) Marshal() ([]byte, error)            { return nil, nil }
 func (c *vCert) MarshalForHandshakes() ([]byte, error) { return nil, nil }
 func (c *vCert) MarshalPEM() ([]byte, error)         { return nil, nil }
-func (c *vCert) MarshalJSON() ([]byte, error)        { return nil, nil }
+func (c *vCert) MarshalJSON() ([]byte, error)        { return []byte("{}"), nil }
 func (c *vCert) String() string                      { return c.name }
 func (c *vCert) Copy() cert.Certificate              { n := *c; return &n }
 
